@@ -246,9 +246,12 @@ def run(p, led, tier):
             it.ext_stubs["statistics.mean"] = mean
             it.ext_stubs["statistics.stdev"] = stdev
             S = {k: Lin.sym(k) for k in ("len_mean", "len_std", "rt_mean", "rt_std", "conf_mean", "conf_std", "error_rate", "canary")}
-            for k in ("len_mean", "len_std", "rt_mean", "rt_std", "conf_mean", "conf_std", "error_rate", "canary"):
+            # what is known of a window that training accepts: deviations are non-negative, a mean of lengths is
+            # non-negative, the rates the display computes lie in [0,1].  Response times and confidences are whatever the
+            # caller recorded (nothing validates them): their means are unconstrained
+            for k in ("len_mean", "len_std", "rt_std", "conf_std", "error_rate", "canary"):
                 it.assume(S[k])
-            for k in ("conf_mean", "error_rate", "canary"):
+            for k in ("error_rate", "canary"):
                 it.assume(Lin({}, 1).add(S[k], -1))
             pep = Obj(pept, dict(agent_id="a1", timestamp=Unknown("ts"), output_length_mean=S["len_mean"], output_length_std=S["len_std"], response_time_mean=S["rt_mean"],
                                  response_time_std=S["rt_std"], vocabulary_hash="vh", structure_hash="sh", confidence_mean=S["conf_mean"], confidence_std=S["conf_std"],
@@ -282,7 +285,7 @@ def run(p, led, tier):
                      f"{len(bad)} of {len(pos)} successful-training paths: the fingerprint the profile was trained from violates it ({bad[0]['n']} violation(s))",
                      witness="train on a window whose canary pass-rate is 40 %: training is POSITIVE, inspecting the same window is CRITICAL/SHUTDOWN")
         else:
-            led.ok("C17-R5", key, where(chkm, chkm.node), f"{len(pos)} successful-training path(s) over symbolic statistics (means/deviations ≥ 0, rates in [0,1]): check() returns no violation")
+            led.ok("C17-R5", key, where(chkm, chkm.node), f"{len(pos)} successful-training path(s) over symbolic statistics (deviations ≥ 0, length mean ≥ 0, rates in [0,1]; response-time and confidence means unconstrained): check() returns no violation")
 
     # ---------------- R3: integrated inspect
     sinsp = p.find_method(isys, "inspect")
